@@ -468,14 +468,16 @@ func Pay(cur realm, to string, amt int64) int64 {
 
 func Mint(cur realm, to string, denom string, amt int64) int64 {
 	b := banker.NewBanker(banker.BankerTypeRealmIssue, cur)
-	b.IssueCoin(address(to), denom, amt)
-	return b.TotalCoin("gno.land/r/verif/peer:" + denom)
+	full := "/gno.land/r/verif/peer:" + denom
+	b.IssueCoin(address(to), full, amt)
+	return b.TotalCoin(full)
 }
 
 func BurnCoin(cur realm, from string, denom string, amt int64) int64 {
 	b := banker.NewBanker(banker.BankerTypeRealmIssue, cur)
-	b.RemoveCoin(address(from), denom, amt)
-	return b.TotalCoin("gno.land/r/verif/peer:" + denom)
+	full := "/gno.land/r/verif/peer:" + denom
+	b.RemoveCoin(address(from), full, amt)
+	return b.TotalCoin(full)
 }
 
 func Dump() string {
